@@ -13,13 +13,17 @@ open Resolvo Resolvo.Sat Resolvo.Abs
 def queueSolvable (sid : SoR) : M Unit := do
   let s ← get
   if s.addedSolv.contains sid then pure ()
-  else set { s with addedSolv := sid :: s.addedSolv, queue := s.queue ++ [Task.deps sid] }
+  else do
+    set { s with addedSolv := sid :: s.addedSolv, queue := s.queue ++ [Task.deps sid] }
+    emit (.queuedSolv sid)
 
 /-- `queue_package` -/
 def queuePackage (n : Nat) : M Unit := do
   let s ← get
   if s.addedPkg.contains n then pure ()
-  else set { s with addedPkg := n :: s.addedPkg, queue := s.queue ++ [Task.pkg n] }
+  else do
+    set { s with addedPkg := n :: s.addedPkg, queue := s.queue ++ [Task.pkg n] }
+    emit (.queuedPkg n)
 
 def pushTask (t : Task) : M Unit := modify fun s => { s with queue := s.queue ++ [t] }
 
@@ -153,7 +157,7 @@ def runTask (U : Universe) (P : Problem) : Task → M Unit
     onConstraintCandidates sid vs l
 
 /-- `Encoder::encode`: returns the clauses that conflict with the current assignment -/
-def encode (U : Universe) (P : Problem) (solvables : List SoR) (fuel : Nat) : M (List Nat) := do
+def encodeSync (U : Universe) (P : Problem) (solvables : List SoR) (fuel : Nat) : M (List Nat) := do
   modify fun s => { s with queue := [], conflicting := [] }
   for sid in solvables do queueSolvable sid
   let rec loop : Nat → M Unit
